@@ -1,19 +1,22 @@
 (** C17 - property theorems, extension part (statements only; proofs are in C17/TokProofs.v,
-    C17/BoundProofs.v and C17/ExtProofs.v).
+    C17/BoundProofs.v, C17/GridProofs.v, C17/ExtProofs.v and C17/ObsProofs.v).
 
     - the ASCII model of the default tokeniser (regex \b\w\w+\b) returns exactly the maximal
       word-character runs of length >= 2, in text order, and this determines the token list;
       lower-casing acts character-wise and commutes with tokenisation;
     - the document-frequency bounds [(f * n as f32) as usize] are floor (RNE_24 (f * n)) and monotone
-      in f (binary32 rounding through Flocq; stated hypotheses: finite non-negative f, n <= 2^24);
+      in f (binary32 rounding through Flocq; stated hypotheses: finite non-negative f, n <= 2^24); on the
+      frequencies the harness uses they are the intended integers (dyadic: proved for all n; other
+      literals and k/n: by evaluation up to 1024 resp. 256 documents, with the first exception 13/22);
     - the property oracle evaluated on the implementation's output is sound for the feature cap and
       for tf-idf;
     - the word -> column content of every transformed document does not depend on the enumeration
-      order of the hash map that numbers the columns. *)
+      order of the hash map that numbers the columns; the comparison of two observed fits is sound, and
+      two observed fits that agree with the model agree with each other. *)
 From Coq Require Import List NArith ZArith Bool String Ascii Arith Permutation Sorted Floats Reals SpecFloat.
 From Flocq Require Import Core.Core IEEE754.BinarySingleNaN.
 From LinfaVerif Require Import Common.Num Common.B32 C17.Model C17.Corr C17.Spec C17.Proofs
-     C17.TokProofs C17.BoundProofs C17.ExtProofs.
+     C17.TokProofs C17.BoundProofs C17.GridProofs C17.ExtProofs C17.ObsProofs.
 Import ListNotations.
 Local Open Scope string_scope.
 
@@ -65,6 +68,36 @@ Proof. exact abs_bound_one. Qed.
 Theorem abs_bound_one_beyond_2p24 : forall n, Z.of_nat n = 16777217%Z -> abs_bound f32_1 n = 16777216%N.
 Proof. exact abs_bound_one_beyond. Qed.
 
+(** * the bounds on the frequencies the harness uses
+    dyadic frequencies: the product is exact and the bound is the integer quotient, for every document
+    count up to 2^24 (3/4: while 3 n <= 2^24; beyond that the product is rounded, GridProofs.v
+    [abs_bound_3quarters_beyond]) *)
+Theorem abs_bound_dyadic_grid : forall n : nat,
+  ((Z.of_nat n <= 16777216)%Z -> abs_bound f32_quarter n = N.of_nat (n / 4) /\ abs_bound f32_half n = N.of_nat (n / 2)) /\
+  ((3 * Z.of_nat n <= 16777216)%Z -> abs_bound f32_3quarters n = N.of_nat (3 * n / 4)).
+Proof.
+  intros n. split; [intros H; split; [exact (abs_bound_quarter n H) | exact (abs_bound_half n H)] | exact (abs_bound_3quarters n)].
+Qed.
+
+(** every literal of the harness grid (0, 1/4, 1/3, 1/2, 2/3, 3/4, 1, 1/5 .. 4/5, 1/10, 7/10, 9/10, 3/2, 2),
+    read as the binary32 number Rust parses it to: for up to 1024 documents the bound is floor (q n) for
+    the rational q that was written - by evaluation of the model on all 16 * 1025 pairs *)
+Theorem abs_bound_on_grid_literals : forall bits num den n,
+  In (bits, (num, den)) grid_literals -> (n <= 1024)%nat ->
+  Z.of_N (abs_bound (b32_of_bits bits) n) = (num * Z.of_nat n / den)%Z.
+Proof. exact abs_bound_grid. Qed.
+
+(** bounds k/n computed in binary32 ([k as f32 / n as f32], as the harness and a user do): the bound of
+    n documents is k again for every k <= n <= 21 - the range of the harness -, k or k - 1 up to 256
+    documents, and 13/22 of 22 documents is 12 *)
+Theorem abs_bound_of_ratio : forall k n, (k <= n)%nat ->
+  ((1 <= n <= 21)%nat -> abs_bound (ratio32 k n) n = N.of_nat k) /\
+  ((1 <= n <= 256)%nat -> abs_bound (ratio32 k n) n = N.of_nat k \/ abs_bound (ratio32 k n) n = N.of_nat (k - 1)).
+Proof. intros k n H. split; [exact (abs_bound_ratio_small k n H) | exact (abs_bound_ratio_near k n H)]. Qed.
+
+Theorem abs_bound_of_ratio_13_22 : abs_bound (ratio32 13 22) 22 = 12%N.
+Proof. exact abs_bound_ratio_13_22. Qed.
+
 (** * oracle soundness: feature cap and tf-idf *)
 Theorem oracle_cap_is_sound : forall c grams vocab k,
   c_fixed c = None -> s_cap (settings_of c) = Some k -> oracle_vocab c grams vocab = 0%N ->
@@ -81,7 +114,9 @@ Theorem oracle_tfidf_is_sound : forall c vocab grams m, snd (oracle_tfidf c voca
   Forall2 (tfidf_row_spec c vocab grams) grams (fm_data m).
 Proof. exact oracle_tfidf_sound. Qed.
 
-(** * the word -> column content is independent of the hash enumeration order *)
+(** * the word -> column content is independent of the hash enumeration order
+    first the model (for all enumerations), then the check evaluated on two independent fits of the
+    implementation (C17/Corr.v [oracle_invariance]) *)
 Theorem vocabulary_word_content_invariant : forall nmin nmax (m0 e1 e2 : vmap),
   guard nmin nmax -> NoDup (keys m0) -> Permutation e1 m0 -> Permutation e2 m0 ->
   let m1 := fst (reindex e1) in
@@ -94,3 +129,34 @@ Theorem vocabulary_word_content_invariant : forall nmin nmax (m0 e1 e2 : vmap),
      word_entry m1 (tfidf_rows o lnf mt nmin nmax m1 docs) d w =
      word_entry m2 (tfidf_rows o lnf mt nmin nmax m2 docs) d w).
 Proof. exact vocab_map_invariant_full. Qed.
+
+(** what the oracle accepts when it compares two independently fitted vectorisers: the same vocabulary
+    set, and for every word the same stored value (or no stored value) in every document *)
+Theorem observed_content_check_is_sound : forall (vocab1 vocab2 : list string) (rows1 rows2 : list (list (N * N))),
+  content_eq N.eqb vocab1 rows1 vocab2 rows2 = true ->
+  (forall w, In w vocab1 <-> In w vocab2) /\
+  forall w, In w vocab1 -> exists i j, pos_of w vocab1 0%N = Some i /\ pos_of w vocab2 0%N = Some j /\
+    Forall2 (fun r1 r2 => sget_opt i r1 = sget_opt j r2) rows1 rows2.
+Proof. exact (content_eq_sound N.eqb (fun x y H => proj1 (N.eqb_eq x y) H)). Qed.
+
+(** the model theorem transported to the observations: if two fits of the implementation (vocabulary()
+    = vocab1 resp. vocab2, any two orders) both agree with the model run in their own column order -
+    which is what the correspondence establishes on every case -, then their count matrices and their
+    tf-idf matrices have the same word -> value content, i.e. the check above accepts.  This is
+    vocabulary_word_content_invariant instantiated with the observed enumeration orders. *)
+Theorem observed_orders_agree : forall (c : case) (vocab1 vocab2 : list string) (docs : list (list string)),
+  let s := settings_of c in
+  let m := model_map c in
+  let m1 := fst (reindex (enum_as vocab1 m)) in
+  let m2 := fst (reindex (enum_as vocab2 m)) in
+  guard (s_nmin s) (s_nmax s) ->
+  same_set (keys m) vocab1 = true -> same_set (keys m) vocab2 = true ->
+  (forall rows1 rows2,
+     toNN (count_rows (s_nmin s) (s_nmax s) m1 docs) = rows1 ->
+     toNN (count_rows (s_nmin s) (s_nmax s) m2 docs) = rows2 ->
+     content_eq N.eqb vocab1 rows1 vocab2 rows2 = true) /\
+  (forall lnf mt rows1 rows2,
+     toNF (tfidf_rows B64_ops lnf mt (s_nmin s) (s_nmax s) m1 docs) = rows1 ->
+     toNF (tfidf_rows B64_ops lnf mt (s_nmin s) (s_nmax s) m2 docs) = rows2 ->
+     content_eq f64_biteq vocab1 rows1 vocab2 rows2 = true).
+Proof. exact observed_orders_agree_full. Qed.
